@@ -52,7 +52,9 @@ func (e editor) enter(from *Selection, to *Selection, new bool, strategy editStr
 		ml := newContainerMetaList(from)
 		m := ml.nextMeta()
 		//fmt.Printf("Begin %s\n", meta.SchemaPath(from.Meta()))
-		for m != nil {
+		// the iterator looks one definition ahead, a failure there ends the walk
+		// before the definition already fetched is processed
+		for m != nil && ml.err == nil {
 			var err error
 			if meta.IsLeaf(m) {
 				err = e.leaf(from, to, m.(meta.Leafable), new, strategy)
@@ -132,7 +134,7 @@ func (e editor) clearOnDifferentChoiceCase(existing *Selection, want meta.Meta) 
 func (e editor) clearChoiceCase(sel *Selection, c *meta.ChoiceCase) error {
 	i := newChoiceCaseIterator(sel, c)
 	m := i.nextMeta()
-	for m != nil {
+	for m != nil && i.err == nil {
 		if meta.IsLeaf(m) {
 			if err := sel.ClearField(m.(meta.Leafable)); err != nil {
 				return err
